@@ -128,6 +128,15 @@ def repo_root():
     return "/repo"
 
 
+BUNDLED_DEEP = {
+    "tests/grammars/json.pest": [("json", "[" * 70 + "1" + "]" * 70), ("json", '{"a":' * 50 + "1" + "}" * 50)],
+    "examples/json/json.pest": [("json", "[" * 70 + "1" + "]" * 70)],
+    "examples/calculator/calculator.pest": [("program", "(" * 60 + "1" + ")" * 60), ("program", "-" * 5 + "(" * 40 + "x" + ")" * 40 + "!")],
+    "examples/calculator/grammar_encoded_prec.pest": [("program", "(" * 22 + "1" + ")" * 22)],
+    "tests/grammars/toml.pest": [("toml", "a = " + "[" * 60 + "1" + "]" * 60 + "\n")],
+    "examples/jsonpath/jsonpath.pest": [("jsonpath", "$[?" + "(" * 28 + "@.a" + ")" * 28 + "]")],
+}
+
 _BUNDLED_CACHE: dict | None = None
 
 
@@ -140,7 +149,7 @@ def bundled():
             p = os.path.join(root, rel)
             try:
                 with open(p, encoding="utf-8") as f:
-                    out["B:" + rel.rsplit("/", 1)[-1].replace(".pest", "") + ("@ex" if rel.startswith("examples") else "")] = {"text": f.read(), "calls": list(calls)}
+                    out["B:" + rel.rsplit("/", 1)[-1].replace(".pest", "") + ("@ex" if rel.startswith("examples") else "")] = {"text": f.read(), "calls": list(calls), "deep": list(BUNDLED_DEEP.get(rel, ()))}
             except OSError:
                 continue
         _BUNDLED_CACHE = out
@@ -149,7 +158,7 @@ def bundled():
 
 FIXED = {
     "P-leak": {"text": P_LEAK, "calls": P_LEAK_CALLS, "deep": P_LEAK_DEEP},
-    "P-leak2": {"text": P_LEAK2, "calls": P_LEAK2_CALLS},
+    "P-leak2": {"text": P_LEAK2, "calls": P_LEAK2_CALLS, "deep": [("v", "<" * 80 + "y" + ">" * 80), ("first", "1" * 120)]},
     "P-builtin": {"text": P_BUILTIN, "calls": P_BUILTIN_CALLS},
     "P-twin1": {"text": P_TWIN1, "calls": P_TWIN1_CALLS},
     "P-twin2": {"text": P_TWIN2, "calls": P_TWIN2_CALLS},
